@@ -689,6 +689,30 @@ fn mismatch_violations(prop: &str, res: &Value, class: &str) -> Vec<Violation> {
     v
 }
 
+/// Writes `n` mixed C18/C19 scripts (with expectations) to `path`: input of the valgrind supplementary screen.
+pub fn write_scripts(seed: u64, n: usize, path: &str) -> i32 {
+    let mut rng = Sm::derive(seed, 0xE87A);
+    let scratch = std::env::var("BVMON_SCRATCH").unwrap_or_else(|_| "/tmp".into());
+    std::fs::create_dir_all(&scratch).ok();
+    let mut scripts = Vec::new();
+    let mut st = LayoutStats { reads_before_first_step: 0, reads_between_submission_and_step: 0, quiet_steps: 0, steps_that_traded: 0, states: 0, asym_states: 0, keys: Vec::new() };
+    for i in 0..n {
+        match i % 4 {
+            0 => scripts.push(gen_orderbook_script(i, &mut rng, 60, &scratch).script),
+            1 => scripts.push(gen_stepenv_script(i, &mut rng, 60).script),
+            2 => scripts.push(gen_layout_script(i, &mut rng, false, &mut st)),
+            _ => scripts.push(gen_layout_script(i, &mut rng, true, &mut st)),
+        }
+    }
+    match std::fs::write(path, serde_json::to_string(&json!({"scripts": scripts, "doc_tables": true})).unwrap()) {
+        Ok(()) => 0,
+        Err(e) => {
+            eprintln!("cannot write {}: {}", path, e);
+            2
+        }
+    }
+}
+
 pub fn c18(ctx: &Ctx) -> i32 {
     let n_scripts = ctx.tier.pick(1500, 20_000);
     let n_calls = 150;
